@@ -37,6 +37,7 @@ from dashlive.utils.timezone import UTC
 
 from .cgi_parameter_collection import CgiParameterCollection
 from .drm_context import DrmContext
+from .exceptions import ManifestNotAvailable
 from .time_source_context import TimeSourceContext
 from .utils import is_https_request
 
@@ -341,6 +342,10 @@ class ManifestContext:
                 continue
             kids: Set[KeyMaterial] = adp.key_ids()
             keys = models.Key.get_kids(kids)
+            for kid in kids:
+                if kid.hex not in keys:
+                    raise ManifestNotAvailable(
+                        f'encryption key {kid.hex} of stream {stream.directory} has been deleted')
             dc = DrmContext(stream, keys, self.options)
             adp.drm = dc.manifest_context
             adp.default_kid = list(keys.keys())[0]
